@@ -68,6 +68,9 @@ def run_chunk(pid, tier, seed, start, stop, max_fail=20, per_run_cap=120):
             agg["bases"] += 1
             h = hashlib.sha256()
             for sc in concrete_cases(prop, base, tier):
+                # the cap is per concrete execution: a hung run kills the worker (exit 2), never exit 0
+                faulthandler.cancel_dump_traceback_later()
+                faulthandler.dump_traceback_later(per_run_cap, exit=True)
                 res = prop.execute(sc)
                 agg["evaluations"] += 1
                 agg["steps"] += res.steps
